@@ -390,12 +390,34 @@ pub fn run_checksums(seed: u64, n: usize, out: &mut dyn Write) -> usize {
     for (i, plen) in lens.iter().enumerate() {
         let kind = kinds[i % kinds.len()];
         let hdr = if kind == "tcp4" { 20 } else { 8 };
+        // the steered contents (below) need whole 32-bit words
+        let plen = &(if i % 6 == 5 { (*plen / 4 * 4).max(8) } else { *plen });
         let mut data = vec![0u8; hdr + plen];
-        match i % 4 {
+        match i % 6 {
             0 => rng.fill(&mut data[..]),
             1 => data.iter_mut().for_each(|b| *b = 0xff),
             2 => data.iter_mut().enumerate().for_each(|(j, b)| *b = if j % 2 == 0 { 0xff } else { 0xfe }),
-            _ => data.iter_mut().for_each(|b| *b = 0),
+            3 => data.iter_mut().for_each(|b| *b = 0),
+            // runs of all-ones words between small words, at every alignment: sums that sit just below a power of
+            // two before the last few words are added (deferred-carry implementations lose a carry here)
+            _ => {
+                let mut j = 0;
+                while j < data.len() {
+                    let run = rng.random_range(0..24);
+                    for _ in 0..run {
+                        if j < data.len() {
+                            data[j] = 0xff;
+                            j += 1;
+                        }
+                    }
+                    for _ in 0..rng.random_range(1..6) {
+                        if j < data.len() {
+                            data[j] = [0u8, 0, 1, 2, 0x80][rng.random_range(0..5)];
+                            j += 1;
+                        }
+                    }
+                }
+            }
         }
         let s4 = Ipv4Addr::from(rng.random::<[u8; 4]>());
         let d4 = Ipv4Addr::from(rng.random::<[u8; 4]>());
@@ -404,6 +426,29 @@ pub fn run_checksums(seed: u64, n: usize, out: &mut dyn Write) -> usize {
         } else {
             (Ipv6Addr::from(rng.random::<[u8; 16]>()), Ipv6Addr::from(rng.random::<[u8; 16]>()))
         };
+        if i % 6 == 5 && data.len() >= hdr + 8 && data.len() % 4 == 0 {
+            // steer the sum of the 32-bit words of (pseudo header + data) onto 0xffffffff modulo 2^32 by the last four
+            // octets: an implementation that defers carries in a wide accumulator folds exactly at its boundary
+            let (off, mut all): (usize, Vec<u8>) = match kind {
+                "icmp4" => (2, Vec::new()),
+                "icmp6" => (2, crate::wire::pseudo_v6(s6, d6, 58, data.len() as u32)),
+                "udp4" => (6, crate::wire::pseudo_v4(s4, d4, 17, data.len() as u16)),
+                "udp6" => (6, crate::wire::pseudo_v6(s6, d6, 17, data.len() as u32)),
+                _ => (16, crate::wire::pseudo_v4(s4, d4, 6, data.len() as u16)),
+            };
+            let base = all.len();
+            all.extend_from_slice(&data);
+            all[base + off] = 0;
+            all[base + off + 1] = 0;
+            let n = all.len();
+            all[n - 4..].fill(0);
+            if n % 4 == 0 {
+                let acc: u64 = all.chunks(4).map(|c| u64::from(u32::from_be_bytes([c[0], c[1], c[2], c[3]]))).sum();
+                let d = (0xffff_ffffu64.wrapping_sub(acc & 0xffff_ffff) & 0xffff_ffff) as u32;
+                let m = data.len();
+                data[m - 4..].copy_from_slice(&d.to_be_bytes());
+            }
+        }
         // checksum field position (octets) and pseudo header (as the RFCs define it)
         let (off, pseudo, sum): (usize, Vec<u8>, u16) = match kind {
             "icmp4" => (2, Vec::new(), checksum::icmp_ipv4_checksum(&data)),
